@@ -68,11 +68,11 @@ def bcClear {F64 K : Type} (zero : F64) (idx : K → Nat) (bc : BondContainer F6
 
 /-- observably `Default`: no keys, weight exactly zero, nothing mapped (`verif_is_clean`) -/
 def bcClean {F64 K : Type} (zero : F64) (bc : BondContainer F64 K) : Prop :=
-  bc.keys = [] ∧ bc.total_weight = zero ∧ ∀ i v, bc.map[i]? ≠ some (some v)
+  bc.keys = [] ∧ bc.total_weight = zero ∧ ∀ (i v : Nat), bc.map[i]? ≠ some (some v)
 
 /-- the container invariant `clear` relies on: only positions of present keys are mapped -/
 def bcMapInv {F64 K : Type} (idx : K → Nat) (bc : BondContainer F64 K) : Prop :=
-  ∀ i v, bc.map[i]? = some (some v) → ∃ k ∈ bc.keys, idx k.1 = i
+  ∀ (i v : Nat), bc.map[i]? = some (some v) → ∃ k ∈ bc.keys, idx k.1 = i
 
 end Pool
 
